@@ -1,0 +1,66 @@
+//go:build verif
+
+package table
+
+import (
+	"os"
+
+	"github.com/lindb/lindb/pkg/fileutil"
+
+	"github.com/lindb/lindb/pkg/bufioutil"
+)
+
+// VerifFSHook is called before (before=true) and after (before=false) a file-system operation.
+type VerifFSHook func(op, path string, before bool)
+
+type verifWriter struct {
+	bufioutil.BufioWriter
+	path string
+	h    VerifFSHook
+}
+
+func (w *verifWriter) Write(p []byte) (int, error) {
+	w.h("tableWrite", w.path, true)
+	n, err := w.BufioWriter.Write(p)
+	w.h("tableWrite", w.path, false)
+	return n, err
+}
+
+func (w *verifWriter) Close() error {
+	w.h("tableClose", w.path, true)
+	err := w.BufioWriter.Close()
+	w.h("tableClose", w.path, false)
+	return err
+}
+
+// VerifSetFSHook wraps the table file writer; nil restores the production function.
+func VerifSetFSHook(h VerifFSHook) {
+	if h == nil {
+		newBufioWriterFunc = bufioutil.NewBufioStreamWriter
+		return
+	}
+	newBufioWriterFunc = func(fileName string) (bufioutil.BufioWriter, error) {
+		h("tableCreate", fileName, true)
+		w, err := bufioutil.NewBufioStreamWriter(fileName)
+		h("tableCreate", fileName, false)
+		if err != nil {
+			return nil, err
+		}
+		return &verifWriter{BufioWriter: w, path: fileName, h: h}, nil
+	}
+}
+
+// VerifSetUnmapHook installs a monitor that is told which table file is being unmapped
+// (nil restores the production function). The unmap itself is always performed.
+func VerifSetUnmapHook(h func(path string)) {
+	if h == nil {
+		unmapFunc = fileutil.Unmap
+		return
+	}
+	unmapFunc = func(f *os.File, data []byte) error {
+		if f != nil {
+			h(f.Name())
+		}
+		return fileutil.Unmap(f, data)
+	}
+}
